@@ -68,7 +68,7 @@ class Tree:
         write(os.path.join(self.root, "ORDER"), "\n".join(names) + "\n")
 
 
-DESKTOPS = ["no-DISPLAY", "nobody-on-the-display", "user-on-the-display", "user-on-the-display-notify-send-fails", "who-fails", "who-prints-nothing"]
+DESKTOPS = ["no-DISPLAY", "nobody-on-the-display", "user-on-the-display", "user-on-the-display-notify-send-fails", "who-fails", "who-prints-nothing", "DISPLAY-empty-who-prints-nothing"]
 
 
 def desktop_env(work, variant, path):
@@ -91,6 +91,9 @@ def desktop_env(work, variant, path):
         script("who", "exit 1")
     elif variant == "who-prints-nothing":
         script("who", "true")
+    elif variant == "DISPLAY-empty-who-prints-nothing":
+        script("who", "true")
+        return {"DISPLAY": "", "PATH": b + ":" + path}
     return {"DISPLAY": ":0", "PATH": b + ":" + path}
 
 
